@@ -421,7 +421,10 @@ pub fn decblk(rec: &mut Recorder, rng: &mut Rng, thorough: bool) {
     let n = if thorough { 1500 } else { 160 };
     for it in 0..n {
         let big = it % 25 == 24;
-        let k = pick_k(rng, if big { if thorough { 700 } else { 280 } } else { 70 });
+        // repair-only / nearly repair-only receptions of small blocks: the solver's first phase then meets
+        // rows with r >= 3 ones in V, which ordinary receptions never produce
+        let heavy = !big && it % 4 == 3;
+        let k = if heavy { rng.range(5, 45) as u32 } else { pick_k(rng, if big { if thorough { 700 } else { 280 } } else { 70 }) };
         let (t, nn, al) = if big || it % 2 == 0 { (rng.range(1, 4) as u16, 1, 1) } else { pick_tnal(rng, 24) };
         let data = rng.bytes(k as usize * t as usize);
         let cfg = cfg_for(k, t, nn, al);
@@ -430,7 +433,8 @@ pub fn decblk(rec: &mut Recorder, rng: &mut Rng, thorough: bool) {
         // received set: K + h distinct symbols, h in 0..=2 mostly (the boundary), sometimes K-1 or many
         let h = match rng.below(10) { 0..=3 => 0, 4..=5 => 1, 6 => 2, 7 => 14 + rng.below(4), 8 => rng.below(5), _ => 0 } as usize;
         let lost = match rng.below(4) { 0 => 1, 1 => rng.range(1, 3), 2 => rng.range(1, k as u64), _ => rng.range(1, (k as u64 / 4).max(1)) } as usize;
-        let lost = lost.min(k as usize);
+        let lost = if heavy { if rng.chance(2, 3) { k as usize } else { rng.range((k as u64 * 2 / 3).max(1), k as u64) as usize } } else { lost.min(k as usize) };
+        if heavy { rec.count("decblk_heavy_loss"); }
         let mut idx: Vec<usize> = (0..k as usize).collect();
         rng.shuffle(&mut idx);
         let mut pk: Vec<EncodingPacket> = idx[lost..].iter().map(|i| src[*i].clone()).collect();
@@ -704,10 +708,24 @@ pub fn linear(rec: &mut Recorder, rng: &mut Rng, thorough: bool) {
     for t in 1..=tmax as u16 {
         if !thorough && t > 140 && t % 3 != 0 && t % 64 > 2 && t % 64 < 62 { continue; }
         let k = pick_k(rng, 40);
-        let (a, b) = (rng.bytes(k as usize * t as usize), rng.bytes(k as usize * t as usize));
+        let (mut a, b) = (rng.bytes(k as usize * t as usize), rng.bytes(k as usize * t as usize));
+        // structured data: whole byte columns zero (shortcuts keyed on "this symbol is zero" must look at every byte)
+        let tt = t as usize;
+        let mode = rng.below(6);
+        let keep: Vec<bool> = match mode {
+            0 | 1 => vec![true; tt],
+            2 => { let tail = (tt % 8).max(1).min(tt); (0..tt).map(|j| j >= tt - tail).collect() }            // only the last T mod 8 columns
+            3 => { let j0 = rng.below(t as u64) as usize; (0..tt).map(|j| j == j0).collect() }                  // one column
+            4 => (0..tt).map(|_| rng.chance(1, 4)).collect(),                                                   // a quarter of the columns
+            _ => { let head = rng.below(t as u64) as usize; (0..tt).map(|j| j < head.max(1).min(tt)).collect() } // only a prefix
+        };
+        for m in 0..k as usize { for j in 0..tt { if !keep[j] { a[m * tt + j] = 0; } } }
+        rec.count(&format!("linear_data_mode_{mode}"));
         let c = rng.range(2, 255) as u8;
         let esis: Vec<u32> = vec![0, k - 1, k, k + 1, pick_repair_esi(rng, k), pick_repair_esi(rng, k), (1 << 24) - 1];
-        let cols: Vec<usize> = vec![0, (t as usize) - 1, rng.below(t as u64) as usize, (t as usize).saturating_sub(4).min(t as usize - 1)];
+        let mut cols: Vec<usize> = vec![0, (t as usize) - 1, rng.below(t as u64) as usize, (t as usize).saturating_sub(4).min(t as usize - 1)];
+        if let Some(j) = keep.iter().position(|x| *x) { cols.push(j); }
+        if let Some(j) = keep.iter().rposition(|x| *x) { cols.push(j); }
         let (a2, b2, e2, cols2) = (a.clone(), b.clone(), esis.clone(), cols.clone());
         let r = guarded(move || {
             let cfg = cfg_for(k, t, 1, 1);
@@ -1109,17 +1127,39 @@ pub fn solver(rec: &mut Recorder, rng: &mut Rng, thorough: bool) {
     // decoder-side systems: erasures, overhead 0..3, ISIs over the 24-bit range, incl. rank-deficient sets
     let n = if thorough { 1500 } else { 200 };
     let extra = if thorough { 12000 } else { 1500 }; // small K, no overhead: harvests sets on which the solver gives up
-    for it in 0..(n + extra) {
+    // heavy loss (most or all source symbols missing): the first phase then meets rows with r >= 3 ones in V,
+    // a branch ordinary receptions never reach
+    let heavy = if thorough { 8000 } else { 900 };
+    for it in 0..(n + extra + heavy) {
         let small = it >= n;
-        let k = if small { rng.range(5, 26) as u32 } else { pick_k(rng, if it % 20 == 19 { 300 } else { 90 }) };
+        let is_heavy = it >= n + extra;
+        let k = if is_heavy { rng.range(5, 60) as u32 } else if small { rng.range(5, 26) as u32 } else { pick_k(rng, if it % 20 == 19 { 300 } else { 90 }) };
         let kp = rq::extended_source_block_symbols(k);
-        let lost = rng.range(1, (k as u64 / 3).max(1)) as usize;
+        let lost = if is_heavy { if rng.chance(1, 2) { k as usize } else { rng.range((k as u64 * 2 / 3).max(1), k as u64) as usize } }
+                   else { rng.range(1, (k as u64 / 3).max(1)) as usize };
+        if is_heavy { rec.count("solver_dec_heavy_loss"); }
+        // half of the heavy systems: only symbols of LT degree >= 3 (and K = K', no padding rows), so that the
+        // first phase starts with r >= 3 and takes the multi-column swap substep with occupied trailing columns
+        let highdeg = is_heavy && it % 2 == 0;
+        let k = if highdeg { *rng.pick(&[10u32, 12, 18, 20, 26, 30, 32, 36, 42, 46, 48, 49, 55, 60]) } else { k };
+        let kp = if highdeg { k } else { kp };
+        let lost = if highdeg { k as usize } else { lost };
         let mut idx: Vec<u32> = (0..k).collect();
         rng.shuffle(&mut idx);
         let mut src: Vec<u32> = idx[lost.min(k as usize)..].to_vec();
         src.sort();
-        let h: usize = if small { 0 } else { match rng.below(8) { 0..=3 => 0, 4..=5 => 1, 6 => 2, _ => 12 } };
+        let h: usize = if small { 0 } else if is_heavy { rng.below(3) as usize } else { match rng.below(8) { 0..=3 => 0, 4..=5 => 1, 6 => 2, _ => 12 } };
         let mut reps = std::collections::BTreeSet::new();
+        if highdeg {
+            let (w, j, p1) = (rq::num_lt_symbols(k), rq::systematic_index(k), rq::calculate_p1(k));
+            let mut guard = 0;
+            while reps.len() < k as usize + h && guard < 100000 {
+                guard += 1;
+                let e = pick_repair_esi(rng, k);
+                if rq::intermediate_tuple(e + (kp - k), w, j, p1).0 >= 3 { reps.insert(e); }
+            }
+            rec.count("solver_dec_high_degree_only");
+        }
         while reps.len() < lost.min(k as usize) + h { reps.insert(pick_repair_esi(rng, k)); }
         let mut isis: Vec<u32> = src.clone();
         isis.extend(k..kp);
@@ -1127,7 +1167,7 @@ pub fn solver(rec: &mut Recorder, rng: &mut Rng, thorough: bool) {
         rng.shuffle(&mut rep);
         isis.extend(rep);
         for be in ["dense", "sparse"] {
-            if small && (be == "dense") != (it % 2 == 0) { continue; }
+            if (small || is_heavy) && (be == "dense") != ((if is_heavy { it / 2 } else { it }) % 2 == 0) { continue; }
             let isis2 = isis.clone();
             let sparse = be == "sparse";
             let r = guarded(move || {
@@ -1148,14 +1188,14 @@ pub fn solver(rec: &mut Recorder, rng: &mut Rng, thorough: bool) {
                     // translation validation of this very run, independent of the solver model: the crate's own
                     // operation vector must be a left-inverse certificate (theorem cert_sound), and a give-up
                     // must be confirmed singular by the verified oracle
-                    if kp <= 130 && (small || it % 3 == 0) {
+                    if kp <= 130 && (small || is_heavy || it % 3 == 0) {
                         let expect = if ops.is_some() { "cert=ok oracle=determined" } else { "gaveup oracle=singular" };
                         let os = match &ops { Some(o) => ops_str(o), None => "none".to_string() };
                         rec.put(&format!("opscert {k} {} {os}", list(&isis)), expect);
                         rec.count(if ops.is_some() { "opscert_solved" } else { "opscert_gave_up" });
                     }
                 }
-                Err(_) => { rec.impl_violation(format!("solver panics on a decoder-side system K={k} ({be})")); rec.put(&format!("pisolve {k} {} {be}", list(&isis)), "err"); }
+                Err(_) => { rec.impl_violation(format!("solver panics on a decoder-side system K={k} ({be} back-end), received internal symbol ids {}", list(&isis))); rec.put(&format!("pisolve {k} {} {be}", list(&isis)), "err"); }
             }
         }
     }
